@@ -317,6 +317,15 @@ func (e *Engine) walkFieldStores(a *ssa.Alloc, f func(ssa.Value)) int {
 				}
 			}
 		}
+		// arrays backing variadic slices: new [n]T; &t[i]; *addr = v
+		if ia, ok := r.(*ssa.IndexAddr); ok {
+			for _, rr := range *ia.Referrers() {
+				if st, ok := rr.(*ssa.Store); ok && st.Addr == ia {
+					f(st.Val)
+					n++
+				}
+			}
+		}
 	}
 	return n
 }
